@@ -6,7 +6,8 @@
         body symbol in order.  [Add] appends to typeMap only if the symbol is absent.
         [IsTerminal sym] = sym is not the name of a production (ntIdMap holds ALL production
         names once the loop is finished; ListTerminals is called afterwards).
-        [ListTerminals] = typeMap filtered by IsTerminal, order preserved.
+        [ListTerminals] = typeMap filtered by IsTerminal and by sym != "empty" (the keyword of an empty
+        alternative gets no token number: repair of defect D18), order preserved.
       - main.go: [gSymbols.Add(g.LexPart.TokenIds()...)] (the token ids of the lexical part,
         sorted -- see Perm.v) and then [tokenMap = NewTokenMap(gSymbols.ListTerminals())].
       - internal/token/tokenmap.go, [NewTokenMap]: TypeMap[i] = sym, IdMap[sym] = i.  This
@@ -32,6 +33,7 @@ Section TokMap.
 Variable str : Type.
 Variable eqb : str -> str -> bool.
 Variables INVALID EOFSYM : str.
+Variable EMPTY : str.      (* the keyword "empty" of an empty alternative: a body symbol, never a terminal (repair of defect D18) *)
 
 Definition mem (x : str) (l : list str) : bool := existsb (eqb x) l.
 
@@ -50,7 +52,7 @@ Definition typemap (prods : list (str * list str)) (lex_ids : list str) : list s
     (add_all (flat_map prod_syms prods) (add EOFSYM (add INVALID []))).
 
 Definition is_terminal (prods : list (str * list str)) (s : str) : bool :=
-  negb (mem s (map fst prods)).
+  negb (mem s (map fst prods)) && negb (eqb s EMPTY).
 
 (** Symbols.ListTerminals = TokenMap.TypeMap *)
 Definition terminals (prods : list (str * list str)) (lex_ids : list str) : list str :=
@@ -83,7 +85,8 @@ Fixpoint zstr_eqb (a b : list Z) : bool :=
 
 Definition INVALID_z : list Z := [73; 78; 86; 65; 76; 73; 68]%Z.   (* "INVALID" *)
 Definition EOF_z : list Z := [9242]%Z.                              (* "␚" = U+241A *)
+Definition EMPTY_z : list Z := [101; 109; 112; 116; 121]%Z.         (* "empty" *)
 
-Definition terminals_z := terminals (list Z) zstr_eqb INVALID_z EOF_z.
+Definition terminals_z := terminals (list Z) zstr_eqb INVALID_z EOF_z EMPTY_z.
 Definition type_of_z := type_of (list Z) zstr_eqb.
 Definition id_of_z := id_of (list Z).
